@@ -2,7 +2,9 @@
 # usage: seedeval.sh <seed-id> <property> [check tier] : confirms a seeded change in its scratch worktree,
 # stores it under /verif/seeded/<seed-id>/, applies it to /repo, runs the property's check, reverts.
 set -u
-id=$1; prop=$2; tier=${3:-quick}
+id=$1; prop=$2; tier=${3:-quick}; limit=${4:-900}
+cleanup() { pkill -P $$ 2>/dev/null; pkill -x symgo 2>/dev/null; git -C /repo checkout -- . 2>/dev/null; }
+trap cleanup EXIT INT TERM
 export GOFLAGS=-mod=mod GOPROXY=off GOSUMDB=off GOTOOLCHAIN=local
 wt=/tmp/seed/$id
 patch=/tmp/seed/$id.patch.diff
@@ -24,7 +26,7 @@ cp $patch $out/patch.diff; cp /tmp/seed/$id.demo_test.go $out/$(basename $demo);
 # run the check against /repo with the change
 cd /repo && git apply $patch || { echo "$id: patch does not apply to /repo"; exit 2; }
 s=$(date +%s)
-timeout 3000 /verif/check $prop $tier > $out/check-$prop-$tier.log 2>&1
+timeout $limit /verif/check $prop $tier > $out/check-$prop-$tier.log 2>&1
 e=$?
 git -C /repo checkout -- .
 echo "$id: check $prop $tier exit=$e $(( $(date +%s) - s ))s violations=$(grep -c '^VIOLATION' $out/check-$prop-$tier.log) inconclusive=$(grep -c '^INCONCLUSIVE' $out/check-$prop-$tier.log)"
